@@ -1,0 +1,13 @@
+//go:build verif
+// +build verif
+
+package sm4
+
+// Accessors for the verification harness (build tag `verif` only): the constant tables of
+// the table-driven implementation, so that they can be compared entry by entry with the
+// formulas of GM/T 0002.
+
+// VerifTables returns copies of sbox, the four T-tables, fk and ck.
+func VerifTables() (s [256]uint8, t [4][256]uint32, f [4]uint32, c [32]uint32) {
+	return sbox, [4][256]uint32{sbox0, sbox1, sbox2, sbox3}, fk, ck
+}
